@@ -13,10 +13,13 @@ import (
 	"errors"
 	"fmt"
 	"io"
+	"os"
+	"runtime"
 	"runtime/debug"
 	"sort"
 	"sync"
 	"sync/atomic"
+	"syscall"
 	"time"
 
 	"github.com/arr-ai/wbnf/parser"
@@ -399,6 +402,101 @@ func c11Deprecate(in map[string]any) map[string]any {
 	return map[string]any{"st": "ok", "serial": errs == 0, "hang": hang, "evals": n * rounds, "nontrivial": n * rounds}
 }
 
+// kind stdin: the lazily filled cache behind //os.stdin ((*stdOsStdin).read in syntax/std_os.go).
+// The source is the process's stdin (os.Stdin as it was at package initialisation, i.e. file
+// descriptor 0), and there is no public way to reset the cache: one contended first use per process.
+// Public API only: descriptor 0 is re-pointed (dup2) at a pipe that a producer goroutine feeds in small
+// chunks, like a terminal or a slow pipe; n goroutines then evaluate the same compiled `//os.stdin`
+// at once.  Serial result: the whole stream, for every goroutine and for every later evaluation.
+// Must be the only (last) case of its process: afterwards descriptor 0 is at end of file.
+func c11Stdin(in map[string]any) map[string]any {
+	n, size, chunk := num(in, "n", 8), num(in, "size", 32768), num(in, "chunk", 128)
+	input := make([]byte, size)
+	for i := range input {
+		input[i] = byte('a' + (i*7+i/chunk)%26)
+	}
+	var p [2]int
+	if err := syscall.Pipe(p[:]); err != nil { // blocking pipe, like the one the driver gave us as stdin
+		return map[string]any{"st": "err", "msg": "pipe: " + err.Error()}
+	}
+	if err := syscall.Dup2(p[0], 0); err != nil {
+		return map[string]any{"st": "err", "msg": "dup2: " + err.Error()}
+	}
+	_ = syscall.Close(p[0])
+	w := os.NewFile(uintptr(p[1]), "stdin-producer")
+	ctx := arraictx.InitRunCtx(context.Background())
+	expr, err := syntax.Compile(ctx, "", `//os.stdin`)
+	if err != nil {
+		return map[string]any{"st": "err", "msg": "compile: " + clip(err.Error())}
+	}
+	// observation: ok:<length>:<fnv-1a of the bytes> (a 32 KiB canonical dump per goroutine is too slow under -race)
+	sum := func(b []byte) string {
+		h := uint64(14695981039346656037)
+		for _, c := range b {
+			h = (h ^ uint64(c)) * 1099511628211
+		}
+		return fmt.Sprintf("ok:%d:%016x", len(b), h)
+	}
+	observe := func() (res string) {
+		defer func() {
+			if p := recover(); p != nil {
+				res = "panic:" + panicSite(string(debug.Stack()))
+			}
+		}()
+		v, err := expr.Eval(arraictx.ContextWithIsCompiling(ctx, false), rel.EmptyScope)
+		if err != nil {
+			return "err"
+		}
+		if b, ok := v.(rel.Bytes); ok {
+			return sum(b.Bytes())
+		}
+		if s, ok := v.(rel.Set); ok && !s.IsTrue() {
+			return sum(nil)
+		}
+		return fmt.Sprintf("other:%T", v)
+	}
+	want := sum(input)
+	// warm everything except the stdin cache itself, so that the goroutines reach it together
+	syntax.StdScope()
+	safeEval(`//os.args`, 60*time.Second)
+	var once sync.Once
+	produce := func() { // started by the first consumer; slower than the consumers
+		go func() {
+			for off := 0; off < len(input); off += chunk {
+				end := off + chunk
+				if end > len(input) {
+					end = len(input)
+				}
+				_, _ = w.Write(input[off:end])
+				runtime.Gosched()
+				time.Sleep(50 * time.Microsecond)
+			}
+			_ = w.Close()
+		}()
+	}
+	got := make([]string, n)
+	if !parallel(n, 60*time.Second, func(g int) {
+		once.Do(produce)
+		got[g] = observe()
+	}) {
+		return map[string]any{"st": "ok", "serial": true, "hang": true}
+	}
+	later := observe() // a quiet evaluation afterwards sees the cache
+	var bad []mismatch
+	short := func(s string) string { return s }
+	for g := 0; g <= n; g++ {
+		r := later
+		if g < n {
+			r = got[g]
+		}
+		if r != want && len(bad) < 5 {
+			bad = append(bad, mismatch{0, g, "//os.stdin", short(r), short(want)})
+		}
+	}
+	return map[string]any{"st": "ok", "serial": len(bad) == 0, "mismatches": bad, "evals": n + 1, "nontrivial": n + 1,
+		"wants": []string{want}}
+}
+
 func init() {
 	register("c11", func(in map[string]any) map[string]any {
 		kind, _ := in["kind"].(string)
@@ -413,6 +511,8 @@ func init() {
 			return c11ImportCache(in)
 		case "deprecate":
 			return c11Deprecate(in)
+		case "stdin":
+			return c11Stdin(in)
 		}
 		return map[string]any{"st": "err", "msg": "unknown kind " + kind}
 	})
